@@ -10,12 +10,12 @@ oracle : a printer draws a program, a spelling for every atom (letter / x<n> / x
 from props import progs
 ID = "C10"
 MODULE = "PotasscoVerif.Props.C10"
-THEOREMS = ["PotasscoVerif.C10.C10_tok", "PotasscoVerif.C10.C10_int", "PotasscoVerif.C10.C10_atom_spellings", "PotasscoVerif.C10.C10_lit", "PotasscoVerif.C10.C10_lits",
+THEOREMS = ["PotasscoVerif.C10m.C10_modes", "PotasscoVerif.C10.C10_tok", "PotasscoVerif.C10.C10_int", "PotasscoVerif.C10.C10_atom_spellings", "PotasscoVerif.C10.C10_lit", "PotasscoVerif.C10.C10_lits",
             "PotasscoVerif.C10.C10_layout_irrelevant_token", "PotasscoVerif.C10.C10_atoms", "PotasscoVerif.C10.C10_rule", "PotasscoVerif.C10.stmtLoop_step",
             "PotasscoVerif.C10.C10_read_program", "PotasscoVerif.C10.C10_agg", "PotasscoVerif.C10.C10_wrule", "PotasscoVerif.C10.dMinimize_spec", "PotasscoVerif.C10.dHeuristic_spec",
             "PotasscoVerif.C10.stmtLoop_comment", "PotasscoVerif.C10.str_spec", "PotasscoVerif.C10.argLoop_spec", "PotasscoVerif.C10.term_spec", "PotasscoVerif.C10.dOutput_spec",
             "PotasscoVerif.C10.skipComments_spec", "PotasscoVerif.C10.C10_read_programX", "PotasscoVerif.C10.stepsLoop_spec", "PotasscoVerif.C10.C10_read_incremental"]
-EXTRA_MODULES = ["PotasscoVerif.Props.C10b", "PotasscoVerif.Props.C10c", "PotasscoVerif.Props.C10e", "PotasscoVerif.Props.C10p", "PotasscoVerif.Props.C10d"]
+EXTRA_MODULES = ["PotasscoVerif.Props.C10b", "PotasscoVerif.Props.C10c", "PotasscoVerif.Props.C10e", "PotasscoVerif.Props.C10p", "PotasscoVerif.Props.C10d", "PotasscoVerif.Props.C10m"]
 PARTIAL = {}
 BSIZES = (16, 17, 4096)
 RULE = ("programs of 0..14 statements over all statement kinds of the input syntax (facts, disjunctive/choice rules, normal and sum bodies, #minimize, #project, #output with "
@@ -36,7 +36,7 @@ LEVEL_TEXT = ("For EVERY filler (any run of blanks/tabs/CR/LF) and every stream 
               "C10_read_programX — a program (one step) over ALL statement kinds (facts, constraints, disjunctive/choice rules with normal or weight bodies, #minimize, #assume, #project, #external, #edge, "
               "#heuristic, #output, comment lines anywhere incl. before the first statement), printed with ANY filler at every optional position and ANY spelling of every atom, is read as exactly the "
               "corresponding calls in order, without error. Props/C10d.lean: C10_read_incremental — filler and comment lines, `#incremental.`, steps separated by `#step.`: per step beginStep, exactly its "
-              "statements, endStep, the boundaries exactly at the markers. In addition model == real reader on every text (also damaged ones, incl. the reported line) and printer oracle on the implementation.")
+              "statements, endStep, the boundaries exactly at the markers. C10_modes: for EVERY input text reading step by step (accept, parse(Incremental) while more()) gives exactly the calls and result of reading in one go. In addition model == real reader on every text (also damaged ones, incl. the reported line) and printer oracle on the implementation.")
 LEVEL_NOTE = ("Proof (whole programs, all statement kinds, every layout) + correspondence (~5k quick / 120k thorough texts × 2 read modes × 3 buffer sizes) + printer oracle. Not in the proved grammar: stray `.` between "
               "statements and a trailing `#step.` (both covered by the correspondence). Trusted: Lean kernel+axioms, C09 for the stream, islower/isalnum, harness, generator/oracle in props/c10.py.")
 
